@@ -54,9 +54,65 @@ def check(ctx: Ctx) -> None:
             exits, problems, it = eng.analyse_method(m, pre)
             label = f"{m} from [{pname}]"
             if m in PRIMITIVES:
-                ctx.ok("TS0", label, "primitive: summary used by callers, exit state not judged")
+                # the five primitives of the protocol: their own contract (callers use the summaries derived from this very code)
+                want = None
+                if m in ("abs", "rel"):
+                    want = {"fresh": m, "keep_other": True}
+                elif m in ("invalidate_abs", "invalidate_rel"):
+                    want = {"stale": m.split("_")[1], "keep_other": True}
+                elif m == "refresh":
+                    want = {"both_fresh": True}
+                if want is None:
+                    ctx.ok("TS0", label, "primitive: summary used by callers, exit state not judged")
+                    continue
+                bad = []
+                if any(how == "raise" for _, _, how in exits):
+                    bad.append("raises from a valid state")
+                for node, w, how in exits:
+                    if how == "raise":
+                        continue
+                    fl = {"abs": w.fa, "rel": w.fr}
+                    vl = {"abs": w.va, "rel": w.vr}
+                    pre_fl = {"abs": pre.fa, "rel": pre.fr}
+                    if "fresh" in want:
+                        v, o = want["fresh"], ("rel" if want["fresh"] == "abs" else "abs")
+                        if fl[v] != F or not vl[v]:
+                            bad.append(f"the {v} view is not fresh and valid afterwards")
+                        if fl[o] != pre_fl[o]:
+                            bad.append(f"the freshness of the {o} view changes")
+                    if "stale" in want:
+                        v, o = want["stale"], ("rel" if want["stale"] == "abs" else "abs")
+                        if fl[v] != S:
+                            bad.append(f"the {v} view is not marked stale afterwards")
+                        if fl[o] != pre_fl[o]:
+                            bad.append(f"the freshness of the {o} view changes")
+                    if want.get("both_fresh") and not (fl["abs"] == F and fl["rel"] == F and vl["abs"] and vl["rel"]):
+                        bad.append("not both views fresh and valid afterwards")
+                if m in ("invalidate_abs", "invalidate_rel"):
+                    bad = [b for b in bad if b != "raises from a valid state"] + (["raises"] if any(how == "raise" for _, _, how in exits) else [])
+                ctx.check(not bad, "TS0", f"primitive {label}: contract of the protocol primitive", function=fi.qualname,
+                          construct=f"protocol primitive `{m}` does not keep its contract", message=f"from [{pname}]: {sorted(set(bad))}", file=file,
+                          node=fi.node)
                 continue
             _judge(ctx, file, fi, label, exits, problems)
+            if m in ("abs", "rel", "refresh"):
+                # reading a view (or refreshing) from a valid state succeeds and yields what it promises
+                bad = []
+                if any(how == "raise" for _, _, how in exits):
+                    bad.append("raises although one view is fresh")
+                for node, w, how in exits:
+                    if how == "raise":
+                        continue
+                    if m in ("abs", "refresh") and not (w.fa == F and w.va):
+                        bad.append("the absolute view is not fresh and valid afterwards")
+                    if m in ("rel", "refresh") and not (w.fr == F and w.vr):
+                        bad.append("the relative view is not fresh and valid afterwards")
+                    if m == "abs" and w.fr != pre.fr:
+                        bad.append("reading the absolute view changes the freshness of the relative view")
+                    if m == "rel" and w.fa != pre.fa:
+                        bad.append("reading the relative view changes the freshness of the absolute view")
+                ctx.check(not bad, "TS0", f"primitive {label}: succeeds and delivers a fresh, valid view", function=fi.qualname,
+                          construct=f"protocol primitive `{m}` does not keep its contract", message=f"from [{pname}]: {sorted(set(bad))}", file=file, node=fi.node)
     ctx.floor("Sequence generators", n_gen, 2, now=False) if False else None
     # the two message accessors hand out live messages of one view: they must be generator functions, so that the view is read (and
     # refreshed) when the iteration starts and not when the iterator object is created
